@@ -4,6 +4,7 @@ import (
 	"bytes"
 	"encoding"
 	"fmt"
+	"reflect"
 	"unicode"
 	"unicode/utf16"
 	"unicode/utf8"
@@ -24,6 +25,18 @@ func newUnmarshalTextDecoder(typ *runtime.Type, structName, fieldName string) *u
 		typ:        typ,
 		structName: structName,
 		fieldName:  fieldName,
+	}
+}
+
+// decodeNull handles a JSON null.  p addresses a value of type d.typ.Elem(), which need not be
+// pointer-sized: like encoding/json, null clears a pointer, map or slice and has no effect on a
+// value of any other kind.
+func (d *unmarshalTextDecoder) decodeNull(p unsafe.Pointer) {
+	switch d.typ.Elem().Kind() {
+	case reflect.Ptr, reflect.Map:
+		*(*unsafe.Pointer)(p) = nil
+	case reflect.Slice:
+		*(*sliceHeader)(p) = sliceHeader{}
 	}
 }
 
@@ -70,7 +83,7 @@ func (d *unmarshalTextDecoder) DecodeStream(s *Stream, depth int64, p unsafe.Poi
 			}
 		case 'n':
 			if bytes.Equal(src, nullbytes) {
-				*(*unsafe.Pointer)(p) = nil
+				d.decodeNull(p)
 				return nil
 			}
 		}
@@ -123,7 +136,7 @@ func (d *unmarshalTextDecoder) Decode(ctx *RuntimeContext, cursor, depth int64, 
 			}
 		case 'n':
 			if bytes.Equal(src, nullbytes) {
-				*(*unsafe.Pointer)(p) = nil
+				d.decodeNull(p)
 				return end, nil
 			}
 		}
